@@ -78,4 +78,33 @@ def commands(spec, g, rng, sin, n=4):
         b = V.fits(spec, sin, v)
         if b is not None and len(b) < 200:
             pool.append(b)
+    # sentinels: every number at the largest value its field can carry (receipt number FFFF = "query", amounts 99…9, bytes FF) —
+    # all fields present, and each optional number field on its own (the pending-receipt query of the terminal client is
+    # `06 23 03 87 FF FF`: a partial reversal that carries nothing but the receipt number FFFF)
+    def top(f, ty):
+        if ty["k"] == "opt":
+            return top(f, ty["t"])
+        if ty["k"] != "int":
+            return None
+        if f["encoding"] == "prrn":
+            return 0xffff
+        if f["encoding"] == "bcd":
+            n = int(f["length"].split(":")[1]) if f["length"].startswith("fixed:") else 2
+            return min(10 ** (2 * n) - 1, 256 ** ty["w"] - 1)
+        return 256 ** ty["w"] - 1
+    full = g.struct(sin, 0.0)
+    allv = dict(full)
+    for f in sin["fields"]:
+        t = top(f, f["ty"])
+        if t is not None:
+            allv[f["name"]] = t
+            if f["ty"]["k"] == "opt":
+                only = {ff["name"]: (None if ff["ty"]["k"] == "opt" else [] if ff["ty"]["k"] == "vec" else full[ff["name"]]) for ff in sin["fields"]}
+                only[f["name"]] = t
+                b = V.fits(spec, sin, only)
+                if b is not None and len(b) < 200 and b not in pool:
+                    pool.append(b)
+    b = V.fits(spec, sin, allv)
+    if b is not None and len(b) < 200 and b not in pool:
+        pool.append(b)
     return pool
